@@ -9,7 +9,7 @@ open Prom.Intervals
 /-- The refinement relation carried along a history. -/
 structure Good (d : Db) (r : Ref) : Prop where
   inv : Inv d
-  lastVis : LastVis d
+  lastOk : LastOk d
   sim : Sim d r
   ooo : d.cfg.oooWin = 0
   cr : 0 < d.cfg.chunkRange
@@ -27,8 +27,15 @@ theorem Db.mem_congr {d d' : Db} (hs : d'.series = d.series) (hb : d'.blocks = d
     d'.mem i x ↔ d.mem i x := by
   unfold Db.mem; rw [hs, hb]
 
-theorem LastVis.congr {d d' : Db} (h : LastVis d) (hs : d'.series = d.series) : LastVis d' := by
-  unfold LastVis; rw [hs]; exact h
+theorem LastOk.congr {d d' : Db} (h : LastOk d) (hs : d'.series = d.series)
+    (hp : ∀ p ∈ pendingOf d', p ∈ pendingOf d) : LastOk d' := by
+  intro s hs' l hl
+  rw [hs] at hs'
+  exact (h s hs' l hl).imp id (fun h' p hp' => h' p (hp p hp'))
+
+theorem LastOk.of_no_pending {d : Db} (hp : pendingOf d = []) : LastOk d := by
+  intro s _ l _
+  right; rw [hp]; intro p hp'; simp at hp'
 
 theorem Db.blkAll_congr {d d' : Db} (hb : d'.blocks = d.blocks) (P : Smp → Prop) : d'.blkAll P ↔ d.blkAll P := by
   unfold Db.blkAll; rw [hb]
@@ -40,7 +47,7 @@ theorem begin_preserves {d : Db} {r : Ref} (hG : Good d r) :
   have hI := hG.inv
   unfold Db.begin
   split
-  · refine ⟨⟨hI.toInvS.congr rfl rfl rfl rfl rfl, ?_⟩, hG.lastVis.congr rfl, ⟨hG.sim.sinc, hG.sim.mem, ?_⟩, hG.ooo, hG.cr⟩
+  · refine ⟨⟨hI.toInvS.congr rfl rfl rfl rfl rfl, ?_⟩, LastOk.of_no_pending rfl, ⟨hG.sim.sinc, hG.sim.mem, ?_⟩, hG.ooo, hG.cr⟩
     · intro a ha
       simp only [Option.some.injEq] at ha
       subst ha
@@ -50,7 +57,7 @@ theorem begin_preserves {d : Db} {r : Ref} (hG : Good d r) :
       simp only [Db.appendableMinValid] at this ⊢
       omega
     · simp
-  · refine ⟨⟨hI.toInvS.congr rfl rfl rfl rfl rfl, ?_⟩, hG.lastVis.congr rfl, ⟨hG.sim.sinc, hG.sim.mem, ?_⟩, hG.ooo, hG.cr⟩
+  · refine ⟨⟨hI.toInvS.congr rfl rfl rfl rfl rfl, ?_⟩, LastOk.of_no_pending rfl, ⟨hG.sim.sinc, hG.sim.mem, ?_⟩, hG.ooo, hG.cr⟩
     · intro a ha
       simp only [Option.some.injEq] at ha
       subst ha
@@ -65,9 +72,9 @@ theorem rollback_preserves {d : Db} {r : Ref} (hG : Good d r) :
   unfold Db.rollback
   split
   · rename_i happ
-    refine ⟨hI, hG.lastVis, ⟨hG.sim.sinc, hG.sim.mem, ?_⟩, hG.ooo, hG.cr⟩
+    refine ⟨hI, hG.lastOk, ⟨hG.sim.sinc, hG.sim.mem, ?_⟩, hG.ooo, hG.cr⟩
     rw [happ]
-  · refine ⟨⟨hI.toInvS.congr rfl rfl rfl rfl rfl, ?_⟩, hG.lastVis.congr rfl, ⟨hG.sim.sinc, hG.sim.mem, ?_⟩, hG.ooo, hG.cr⟩
+  · refine ⟨⟨hI.toInvS.congr rfl rfl rfl rfl rfl, ?_⟩, LastOk.of_no_pending rfl, ⟨hG.sim.sinc, hG.sim.mem, ?_⟩, hG.ooo, hG.cr⟩
     · intro a ha; simp at ha
     · simp
 
@@ -82,7 +89,7 @@ theorem commit_preserves {d : Db} {r : Ref} (hG : Good d r) :
     have : d.commit = (d, .error .noapp) := by unfold Db.commit; rw [happ]
     rw [this]
     simp only [outOfRes, Out.isOk]
-    refine ⟨hI, hG.lastVis, ⟨hS.sinc, hS.mem, ?_⟩, hG.ooo, hG.cr⟩
+    refine ⟨hI, hG.lastOk, ⟨hS.sinc, hS.mem, ?_⟩, hG.ooo, hG.cr⟩
     rw [happ]; simp
   | some a =>
     have hSa := hS.app
@@ -97,7 +104,7 @@ theorem commit_preserves {d : Db} {r : Ref} (hG : Good d r) :
       have hr : r.commit = { r with pending := [], open_ := false } := by
         rw [Ref.commit_eq, hSa.2, hb]; rfl
       rw [hr]
-      refine ⟨⟨hI.toInvS.congr rfl rfl rfl rfl rfl, ?_⟩, hG.lastVis.congr rfl, ⟨hS.sinc, hS.mem, ?_⟩, hG.ooo, hG.cr⟩
+      refine ⟨⟨hI.toInvS.congr rfl rfl rfl rfl rfl, ?_⟩, LastOk.of_no_pending rfl, ⟨hS.sinc, hS.mem, ?_⟩, hG.ooo, hG.cr⟩
       · intro a ha; simp at ha
       · simp
     · rw [Db.commit_some d a happ hb]
@@ -108,11 +115,12 @@ theorem commit_preserves {d : Db} {r : Ref} (hG : Good d r) :
         | true => exact absurd (hA.initBatch hi) hb
       have hblk := hA.blkLt hinit
       -- the loop invariant holds initially
+      have hpend : pendingOf d = a.batch := by unfold pendingOf; rw [happ]
       have h0 : FI { d with wal := d.wal ++ [Rec.samples a.batch] }
-          { d with wal := d.wal ++ [Rec.samples a.batch] } MaxI64 MinI64 r :=
+          { d with wal := d.wal ++ [Rec.samples a.batch] } MaxI64 MinI64 r a.batch :=
         { blocks := rfl, cfg := rfl, minT := rfl, maxT := rfl, minValid := rfl,
           idxNodup := hI.idxNodup, physInc := hI.physInc, physNe := hI.physNe, physMax := hI.physMax,
-          tombHi := hI.tombHi, lastVis := hG.lastVis,
+          tombHi := hI.tombHi, lastOk := fun s hs l hl => by have := hG.lastOk s hs l hl; rw [hpend] at this; exact this,
           physBound := fun s hs x hx => ⟨Or.inr (hI.physLo s hs x hx), Or.inr (hI.physHi s hs x hx)⟩,
           blkLo := hI.blkMax, sinc := hS.sinc, mem := hS.mem }
       have hF := commitFold_FI (d0 := { d with wal := d.wal ++ [Rec.samples a.batch] }) (a := a)
@@ -128,7 +136,7 @@ theorem commit_preserves {d : Db} {r : Ref} (hG : Good d r) :
       have hm3 : dF.minValid = d.minValid := hF.minValid
       have hblkAll : ∀ P, d.blkAll P → ∀ b ∈ dF.blocks, ∀ s ∈ b.series, ∀ x ∈ s.smps, P x := by
         intro P h; rw [hb1]; exact h
-      refine ⟨⟨?_, ?_⟩, hF.lastVis.congr rfl, ⟨hF.sinc, ?_, ?_⟩, ?_, ?_⟩
+      refine ⟨⟨?_, ?_⟩, LastOk.of_no_pending rfl, ⟨hF.sinc, ?_, ?_⟩, ?_, ?_⟩
       · refine
           { idxNodup := hF.idxNodup, physInc := hF.physInc, physNe := hF.physNe, physLo := ?_,
             physHi := ?_, physMax := hF.physMax, tombHi := hF.tombHi, blkInc := ?_, blkRange := ?_,
@@ -181,32 +189,6 @@ def appendSpec (d : Db) (a : App) (i : Nat) (t : Int) (v : Nat) : Db × Except A
   | .error e => (d2, .error e)
   | .ok _ => ({ d2 with app := some { appA d a t with batch := (appA d a t).batch ++ [(i, ⟨t, v⟩)] } }, .ok ())
 
-theorem append_eq {d : Db} {a : App} (h : d.app = some a) (i : Nat) (t : Int) (v : Nat) :
-    d.append i t v = appendSpec d a i t v := by
-  unfold Db.append appendSpec appD appA
-  rw [h]
-  simp only
-  cases hinit : a.init
-  · simp only [Bool.false_eq_true, if_false]; rfl
-  · simp only [if_true]
-    unfold initTime
-    split <;> rfl
-
-theorem append_some {d : Db} {a : App} (h : d.app = some a) (i : Nat) (t : Int) (v : Nat) :
-    (∃ e, d.append i t v = ({ appD d a t with app := some (appA d a t) }, .error e)) ∨
-    (d.append i t v = ({ appD d a t with app := some { appA d a t with batch := (appA d a t).batch ++ [(i, ⟨t, v⟩)] } }, .ok ())
-      ∧ ((appD d a t).cfg.oooWin = 0 → (appA d a t).minValid ≤ t)) := by
-  rw [append_eq h]
-  unfold appendSpec
-  simp only
-  split
-  · left; exact ⟨_, rfl⟩
-  · rename_i hc
-    split
-    · left; exact ⟨_, rfl⟩
-    · right; refine ⟨rfl, ?_⟩
-      intro h0; omega
-
 theorem initTime_series (d : Db) (t : Int) : (initTime d t).series = d.series := by
   unfold initTime; split <;> rfl
 theorem initTime_blocks (d : Db) (t : Int) : (initTime d t).blocks = d.blocks := by
@@ -223,6 +205,63 @@ theorem appD_minValid (d : Db) (a : App) (t : Int) : (appD d a t).minValid = d.m
   unfold appD; split; exact initTime_minValid d t; rfl
 theorem appD_cfg (d : Db) (a : App) (t : Int) : (appD d a t).cfg = d.cfg := by
   unfold appD; split; exact initTime_cfg d t; rfl
+theorem append_eq {d : Db} {a : App} (h : d.app = some a) (i : Nat) (t : Int) (v : Nat) :
+    d.append i t v = appendSpec d a i t v := by
+  unfold Db.append appendSpec appD appA
+  rw [h]
+  simp only
+  cases hinit : a.init
+  · simp only [Bool.false_eq_true, if_false]; rfl
+  · simp only [if_true]
+    unfold initTime
+    split <;> rfl
+
+theorem appendable_ok_le {phys : List Smp} {t : Int} {v : Nat} {hm mv : Int} {b : Bool}
+    (h : appendable phys t v hm mv 0 = .ok b) : ∀ l, phys.getLast? = some l → l.t ≤ t := by
+  intro l hl
+  apply Classical.byContradiction
+  intro hn
+  have h1 : ¬ t > l.t := by omega
+  have h2 : ¬ t = l.t := by omega
+  unfold appendable at h
+  simp only [hl, h1, h2, if_false] at h
+  split at h
+  · rename_i heq; split at heq <;> simp at heq
+  · split at h
+    · rename_i hc; exact absurd hc.1 (by omega)
+    · split at h <;> (try split at h) <;> cases h
+
+theorem getSeries_congr {d d' : Db} (h : d'.series = d.series) (i : Nat) : d'.getSeries i = d.getSeries i := by
+  unfold Db.getSeries; rw [h]
+
+/-- The append re-submits the timestamp of the newest physical sample of the series while that
+    sample is hidden by a tombstone (the situation of finding F28). -/
+def resubmits (d : Db) (i : Nat) (t : Int) : Prop :=
+  ∃ l, (d.getSeries i).phys.getLast? = some l ∧ l.t = t ∧ visible (d.getSeries i).tombs l = false
+
+theorem append_some {d : Db} {a : App} (h : d.app = some a) (i : Nat) (t : Int) (v : Nat) :
+    (∃ e, d.append i t v = ({ appD d a t with app := some (appA d a t) }, .error e)) ∨
+    (d.append i t v = ({ appD d a t with app := some { appA d a t with batch := (appA d a t).batch ++ [(i, ⟨t, v⟩)] } }, .ok ())
+      ∧ ((appD d a t).cfg.oooWin = 0 → (appA d a t).minValid ≤ t ∧
+          ∀ l, (d.getSeries i).phys.getLast? = some l → l.t ≤ t)) := by
+  rw [append_eq h]
+  unfold appendSpec
+  simp only
+  split
+  · left; exact ⟨_, rfl⟩
+  · rename_i hc
+    split
+    · left; exact ⟨_, rfl⟩
+    · rename_i bb hab
+      right; refine ⟨rfl, ?_⟩
+      intro h0
+      refine ⟨by omega, ?_⟩
+      rw [h0] at hab
+      have hser : ({ appD d a t with app := some (appA d a t) } : Db).getSeries i = d.getSeries i :=
+        getSeries_congr (d' := { appD d a t with app := some (appA d a t) }) (appD_series d a t) i
+      rw [hser] at hab
+      exact appendable_ok_le hab
+
 theorem appA_init (d : Db) (a : App) (t : Int) : (appA d a t).init = false := by
   unfold appA; cases h : a.init <;> simp [h]
 theorem appA_batch (d : Db) (a : App) (t : Int) : (appA d a t).batch = a.batch := by
@@ -280,7 +319,7 @@ theorem appA_batchGe {d : Db} {a : App} (hA : AppInv d a) (t : Int) :
     rw [hA.initBatch hinit]; simp
 
 theorem append_preserves {d : Db} {r : Ref} (hG : Good d r) (i : Nat) (t : Int) (v : Nat)
-    (ht : MinI64 ≤ t ∧ t < MaxI64) :
+    (ht : MinI64 ≤ t ∧ t < MaxI64) (hres : ¬ resubmits d i t) :
     Good (d.append i t v).1
       (if (outOfRes (d.append i t v).2).isOk = true ∧ r.open_ = true then
         { r with pending := r.pending ++ [(i, ⟨t, v⟩)] } else r) := by
@@ -303,7 +342,9 @@ theorem append_preserves {d : Db} {r : Ref} (hG : Good d r) (i : Nat) (t : Int) 
     rcases append_some happ i t v with ⟨e, he⟩ | ⟨he, hge⟩
     · rw [he]
       simp only [outOfRes, Out.isOk, Bool.false_eq_true, false_and, if_false]
-      refine ⟨⟨hIS.congr rfl rfl rfl rfl rfl, ?_⟩, hG.lastVis.congr (appD_series d a t),
+      have hpend : pendingOf d = a.batch := by unfold pendingOf; rw [happ]
+      refine ⟨⟨hIS.congr rfl rfl rfl rfl rfl, ?_⟩,
+        hG.lastOk.congr (appD_series d a t) (fun p hp => by rw [hpend]; simpa [pendingOf, appA_batch] using hp),
         ⟨hS.sinc, fun j z => (hmem _ j z).trans (hS.mem j z), ?_⟩, ?_, ?_⟩
       · intro a' ha'
         simp only [Option.some.injEq] at ha'
@@ -317,8 +358,29 @@ theorem append_preserves {d : Db} {r : Ref} (hG : Good d r) (i : Nat) (t : Int) 
         rw [appD_cfg]; exact hG.cr
     · rw [he]
       simp only [outOfRes, Out.isOk, hSa.1, and_self, if_true]
-      refine ⟨⟨hIS.congr rfl rfl rfl rfl rfl, ?_⟩, hG.lastVis.congr (appD_series d a t),
+      have hpend : pendingOf d = a.batch := by unfold pendingOf; rw [happ]
+      have hge' := hge (by rw [appD_cfg]; exact hG.ooo)
+      refine ⟨⟨hIS.congr rfl rfl rfl rfl rfl, ?_⟩, ?lo,
         ⟨hS.sinc, fun j z => (hmem _ j z).trans (hS.mem j z), ?_⟩, ?_, ?_⟩
+      case lo =>
+        intro s hs l hl
+        have hs0 : s ∈ d.series := by rw [← appD_series d a t]; exact hs
+        rcases hG.lastOk s hs0 l hl with hv | hn
+        · exact Or.inl hv
+        · by_cases hvis : visible s.tombs l = true
+          · exact Or.inl hvis
+          · right
+            intro p hp hpi
+            simp only [pendingOf, appA_batch, List.mem_append, List.mem_singleton] at hp
+            rcases hp with hp | rfl
+            · exact hn p (by rw [hpend]; exact hp) hpi
+            · simp only at hpi ⊢
+              have hgs : d.getSeries i = s := by rw [hpi]; exact getSeries_of_mem hI.idxNodup hs0
+              have hle := hge'.2 l (by rw [hgs]; exact hl)
+              have : l.t ≠ t := by
+                intro e
+                exact hres ⟨l, by rw [hgs]; exact hl, e, by rw [hgs]; simpa using hvis⟩
+              omega
       · intro a' ha'
         simp only [Option.some.injEq] at ha'
         subst ha'
@@ -328,8 +390,7 @@ theorem append_preserves {d : Db} {r : Ref} (hG : Good d r) (i : Nat) (t : Int) 
           simp only [List.mem_append, List.mem_singleton] at hp
           rcases hp with hp | rfl
           · exact appA_batchGe hA t p hp
-          · have := hge (by rw [appD_cfg]; exact hG.ooo)
-            exact ⟨this, ht.2⟩
+          · exact ⟨hge'.1, ht.2⟩
       · simp only; rw [appA_batch, hSa.2]; simp [hSa.1]
       · show (appD d a t).cfg.oooWin = 0
         rw [appD_cfg]; exact hG.ooo
